@@ -229,6 +229,62 @@ pub fn tool(cmd: &str, args: &[String]) -> i32 {
                 None => { println!("NO-WITNESS (bounded directed search: all 1- and 2-byte strings, perturbed encodings of boundary vectors, long runs, tight alignments)"); 0 }
             }
         }
+        "h2p-case" => {
+            let n: usize = args[0].parse().unwrap();
+            let b = unhex(args.get(1).map(|s| s.as_str()).unwrap_or(""));
+            match crate::falcon::verif::h2p_case(&b, n) {
+                Ok(()) => { println!("hash_to_point agrees with Algorithm 3 on this input"); 0 }
+                Err(why) => { println!("REPRODUCED {}", why); 1 }
+            }
+        }
+        "search-h2p" => {
+            let seed: u64 = args.get(0).and_then(|s| s.parse().ok()).unwrap_or(0);
+            match crate::falcon::verif::search_h2p(seed) {
+                Some(d) => { println!("WITNESS {}", d); 1 }
+                None => { println!("NO-WITNESS (bounded search: 60004 strings at n = 512 and 1024, 300 strings at 8 other lengths)"); 0 }
+            }
+        }
+        "sign-case" => {
+            let msgs: Vec<Vec<u8>> = args.get(0).map(|s| s.as_str()).unwrap_or("").split(';').filter(|s| !s.is_empty()).map(|s| unhex(&s[1..])).collect();
+            match crate::falcon::verif::sign_case(&msgs) {
+                Ok(()) => { println!("all signatures verify and carry pairwise distinct salts"); 0 }
+                Err(why) => { println!("REPRODUCED {}", why); 1 }
+            }
+        }
+        "search-sign" => {
+            let seed: u64 = args.get(0).and_then(|s| s.parse().ok()).unwrap_or(0);
+            match crate::falcon::verif::search_sign(seed) {
+                Some(d) => { println!("WITNESS {}", d); 1 }
+                None => { println!("NO-WITNESS (12 honest Falcon-512 signatures of 4 messages on two threads)"); 0 }
+            }
+        }
+        "keygen-case" => {
+            let n: usize = args[0].parse().unwrap();
+            let sd: u8 = args[1].parse().unwrap();
+            let r = if n == 512 { crate::falcon::verif::keygen_case::<512>([sd; 32]) } else { crate::falcon::verif::keygen_case::<1024>([sd; 32]) };
+            match r { Ok(()) => { println!("the key pair of this seed is a valid NTRU trapdoor with in-range leaves and survives serialisation"); 0 } Err(why) => { println!("REPRODUCED {}", why); 1 } }
+        }
+        "search-keygen" => {
+            let seed: u64 = args.get(0).and_then(|s| s.parse().ok()).unwrap_or(0);
+            match crate::falcon::verif::search_keygen(seed) {
+                Some(d) => { println!("WITNESS {}", d); 1 }
+                None => { println!("NO-WITNESS (key pairs of seeds [0;32], [1;32], [2;32] at n = 512 and [0;32] at n = 1024)"); 0 }
+            }
+        }
+        "sk-str-case" => {
+            let n: usize = args[0].parse().unwrap();
+            let mr = args[1] == "1";
+            let b = unhex(args.get(2).map(|s| s.as_str()).unwrap_or(""));
+            let r = if n == 512 { crate::falcon::verif::sk_str_case::<512>(&b, mr) } else { crate::falcon::verif::sk_str_case::<1024>(&b, mr) };
+            match r { Ok(()) => { println!("SecretKey::from_bytes is strict on this string"); 0 } Err(why) => { println!("REPRODUCED {}", why); 1 } }
+        }
+        "search-sk" => {
+            let seed: u64 = args.get(0).and_then(|s| s.parse().ok()).unwrap_or(0);
+            match crate::falcon::verif::search_sk(seed) {
+                Some(d) => { println!("WITNESS {}", d); 1 }
+                None => { println!("NO-WITNESS (perturbed encodings of one Falcon-512 secret key: lengths, header bits, reserved field values, 200 bit flips; plus search-keygen)"); 0 }
+            }
+        }
         "ntt-case" => {
             let pa: Vec<i64> = args[0].split(';').filter(|s| !s.is_empty()).map(|s| s.parse().unwrap()).collect();
             let pb: Vec<i64> = args[1].split(';').filter(|s| !s.is_empty()).map(|s| s.parse().unwrap()).collect();
